@@ -154,3 +154,13 @@ Example ex_width :
   M_width_encode 0 6553600 (6553600 + 3 * 65536) = Some 196608%Z /\
   M_width_encode 0 6553600 (6553600 + 1) = Some 1%Z.
 Proof. vm_compute. repeat split. Qed.
+
+(* ---------- FontMatrix omission ---------- *)
+(* an identity matrix in a Font DICT is written (the default there is 0.001),
+   in the Top DICT of a CID-keyed font it is omitted; both read back *)
+Example ex_fontmatrix :
+  M_fm_write FmFontDict [1000000; 0; 0; 1000000; 0; 0]%Z = Some [1000000; 0; 0; 1000000; 0; 0]%Z /\
+  M_fm_write FmTopCID [1000000; 0; 0; 1000000; 0; 0]%Z = None /\
+  M_fm_write FmFontDict [1000; 0; 0; 1000; 0; 0]%Z = None /\
+  M_fm_read FmFontDict None = [1000; 0; 0; 1000; 0; 0]%Z.
+Proof. vm_compute. repeat split. Qed.
